@@ -214,6 +214,25 @@ func runDL(c DLCase) core.Result {
 		return core.Result{Inconcl: "session: " + err.Error()}
 	}
 	defer ses.Close()
+	// Was this process descheduled for long stretches (a 50 ms tick that took over 0.4 s)? Timeouts of the client or of
+	// the scripted peers are only excused as "machine too loaded" when that was observed during the case.
+	var frozen atomic.Int32
+	stopMon := make(chan struct{})
+	defer close(stopMon)
+	go func() {
+		last := time.Now()
+		for {
+			select {
+			case <-stopMon:
+				return
+			case <-time.After(50 * time.Millisecond):
+			}
+			if time.Since(last) > 400*time.Millisecond {
+				frozen.Add(1)
+			}
+			last = time.Now()
+		}
+	}()
 
 	// web seeds
 	var urls []string
@@ -369,6 +388,7 @@ func runDL(c DLCase) core.Result {
 	port := tor.Port()
 	clientAddr := fmt.Sprintf("%s:%d", sess.IP(0), port)
 	// peers that dial the client
+	lastDialErr := ""
 	dial := func(k int, b speer.Behaviour, fast bool, mse *refmse.Opts) *speer.Server {
 		var p *speer.Peer
 		var err error
@@ -385,6 +405,7 @@ func runDL(c DLCase) core.Result {
 			time.Sleep(25 * time.Millisecond)
 		}
 		if err != nil {
+			lastDialErr = err.Error()
 			return nil
 		}
 		return track(speer.Serve(p, b, F, int(l.PieceLength), infoBytes))
@@ -392,7 +413,12 @@ func runDL(c DLCase) core.Result {
 	if c.SeedPeer && c.SeedDials {
 		honest = dial(1, speer.Behaviour{}, c.SeedFast, mseOpts(c.SeedMSE, true))
 		if honest == nil {
-			return core.Failf("the honest seeder could not connect to the client at %s (policy %d, seeder mse %d)", clientAddr, c.Enc, c.SeedMSE)
+			if frozen.Load() > 0 && (strings.Contains(lastDialErr, "timeout") || strings.Contains(lastDialErr, "deadline")) {
+				// three handshakes with 2, 6 and 10 s timed out: the machine is too loaded for this case to say anything
+				res.Inconcl = "the honest seeder's handshake with the client timed out three times: " + lastDialErr
+				return res
+			}
+			return core.Failf("the honest seeder could not connect to the client at %s (policy %d, seeder mse %d): %s", clientAddr, c.Enc, c.SeedMSE, lastDialErr)
 		}
 	}
 	for i, b := range c.Nuisance {
@@ -412,6 +438,7 @@ func runDL(c DLCase) core.Result {
 	// window and for which no scripted peer holds an unanswered request or received one during the window was needed
 	// and unrequested all along.
 	var judged atomic.Bool
+	var starved atomic.Int32
 	idleViolation := make(chan string, 1)
 	stopWatch := make(chan struct{})
 	defer close(stopWatch)
@@ -427,12 +454,21 @@ func runDL(c DLCase) core.Result {
 		go func() {
 			const window = 2500 * time.Millisecond
 			var since time.Time
+			lastTick := time.Now()
 			for {
 				select {
 				case <-stopWatch:
 					return
 				case <-time.After(100 * time.Millisecond):
 				}
+				// the window measures what the client does in 2.5 s of running, not of being descheduled: when this loop,
+				// which lives in the client's process, was itself held up (a tick took over 0.4 s instead of 0.1 s), the
+				// process did not run and the window starts again
+				if gap := time.Since(lastTick); gap > 400*time.Millisecond {
+					since = time.Time{}
+					starved.Add(1)
+				}
+				lastTick = time.Now()
 				allMu.Lock()
 				srv := append([]*speer.Server(nil), allServers...)
 				allMu.Unlock()
@@ -595,6 +631,9 @@ func runDL(c DLCase) core.Result {
 	if c.WSStall != nil {
 		res.Labels = append(res.Labels, "slow-webseed")
 	}
+	if starved.Load() > 0 || frozen.Load() > 0 {
+		res.Labels = append(res.Labels, "process-descheduled-over-0.4s")
+	}
 	if judged.Load() {
 		// a full window with the honest seeder idle was examined (and every incomplete piece was accounted for)
 		if wsMode {
@@ -636,6 +675,14 @@ func runDL(c DLCase) core.Result {
 		}
 		wsKnown := good != nil && !c.Magnet // a magnet link carries no web seed address: the client does not know of it
 		if wsKnown && !progress && len(good.Log()) == ws0 && honest == nil {
+			for _, w := range tor.Webseeds() {
+				if frozen.Load() > 0 && w.URL == good.URL() && w.Error != nil && (strings.Contains(w.Error.Error(), "timeout") || strings.Contains(w.Error.Error(), "deadline") || strings.Contains(w.Error.Error(), "canceled")) {
+					// the client's 3 s header / body timeouts fired against the honest web seed (loaded machine): the source
+					// was not reachable in the property's sense; the client retries it a minute later (c10.wsretry)
+					res.Inconcl = fmt.Sprintf("the honest web seed timed out on the client's side: %v", w.Error)
+					return res
+				}
+			}
 			return core.Failf("STUCK: after 25 s the download is incomplete (%d/%d pieces, status %v) and for a further 4 s nothing moved although an honest web seed is configured and idle (%d requests so far)",
 				st1.Pieces.Have, st1.Pieces.Total, st1.Status, ws0)
 		}
@@ -644,7 +691,7 @@ func runDL(c DLCase) core.Result {
 			errs := append([]string(nil), acceptErrs...)
 			allMu.Unlock()
 			for _, e := range errs {
-				if strings.Contains(e, "timeout") || strings.Contains(e, "deadline") {
+				if frozen.Load() > 0 && (strings.Contains(e, "timeout") || strings.Contains(e, "deadline")) {
 					// the property assumes a reachable source: a handshake that the scripted listener gave up after 10 s (loaded machine) is not the client's doing
 					res.Inconcl = fmt.Sprintf("the honest seeder never got connected: a handshake timed out at a scripted listener (%v)", errs)
 					return res
